@@ -71,7 +71,12 @@ def _run_chunk(args):
                 continue
             seed = run_seed(verif_seed, prop, tier, i)
             case = mod.gen_case(seed, tier)
-            res = mod.run_case(case)
+            try:
+                res = mod.run_case(case)
+            except Exception as e:  # noqa: BLE001 - a harness bug, never a VIOLATION
+                tb = traceback.format_exc().strip().splitlines()
+                out["anomalies"].append((i, seed, f"harness-exception {type(e).__name__}: {e} @ {tb[-3:-1]}"))
+                continue
             out["evaluations"] += 1
             out["faults"].merge(res.faults)
             out["probes"].merge(res.probes)
